@@ -86,6 +86,7 @@ inductive Expect (Val Err Op : Type) where
   | set (before after : List (Except Err Val)) (refsAfter : List (Except Err Val))
                                                           -- per watch: value before / after the update; per holder: after
   | readRef (r : Except Err Val)                          -- a Parameter holding the expression mirrors its value
+  | readOrRefused (r : Except Err Val)                    -- `x in expr`: what plain Python computes, or refused with TypeError
   | invalid                                               -- dangling reference: not a program
 
 /-- one statement on the specification state: expectation and next state; `none` = no next state (invalid) -/
@@ -138,10 +139,11 @@ def specStep (S : Sem Val Err Op) (s : SpecState Val Op) : Stmt Val Op → Expec
     | some e => (.createOrErr (eval S s.env e) none, { s with refs := s.refs ++ [e] })
     | none => (.invalid, s)
   | .isin n cop x =>
-    -- plain Python: `x in value` = operator.contains(value, x), a bool
+    -- plain Python: `x in value` = operator.contains(value, x), a bool; an expression may refuse (TypeError),
+    -- it must never answer with a wrong bool
     match s.exprs[n]? with
     | some e =>
-      (.read (match eval S s.env e with
+      (.readOrRefused (match eval S s.env e with
               | .ok val => S.apply cop [val, x]
               | .error err => .error err), s)
     | none => (.invalid, s)
@@ -161,6 +163,14 @@ def isOkVal (r : Option (Except Err Val)) (v : Val) : Bool :=
   match r with
   | some (.ok v') => v' == v
   | _ => false
+
+/-- a read against the direct evaluation -/
+def meetsRead : Except Err Val → Outcome Val Err → Option String
+  | .ok v, .read v' => if v == v' then none else some "read returned a value different from the direct evaluation"
+  | .ok _, .readErr _ => some "read raised although the direct evaluation succeeds (no recovery)"
+  | .error e, .readErr e' => if e == e' then none else some "read raised another exception class than the direct evaluation"
+  | .error _, .read _ => some "read returned a value although the direct evaluation raises"
+  | _, _ => some "unexpected outcome of a read"
 
 /-- does an observed outcome meet the expectation?  `none` = yes, `some reason` = no -/
 def meets (S : Sem Val Err Op) : Expect Val Err Op → Outcome Val Err → Option String
@@ -185,6 +195,10 @@ def meets (S : Sem Val Err Op) : Expect Val Err Op → Outcome Val Err → Optio
   | .read (.error e), .readErr e' => if e == e' then none else some "read raised another exception class than the direct evaluation"
   | .read (.error _), .read _ => some "read returned a value although the direct evaluation raises"
   | .read _, _ => some "unexpected outcome of a read"
+  | .readOrRefused r, o =>
+    match o with
+    | .readErr e' => if e' == S.typeErr then none else meetsRead r o
+    | _ => meetsRead r o
   | .readRef (.ok v), .read v' =>
     if v == v' then none else some "a Parameter holding the expression as a reference does not mirror its value"
   | .readRef (.error _), .read _ => none     -- the expression fails now: the holder keeps its last value
